@@ -195,6 +195,40 @@ func c17LinesC18(out string) []string {
 
 func c18S(s string) *string { return &s }
 
+// c18Count is the number of elements the expression expands to (sum over
+// groups of the product of the block sizes).
+func c18Count(e [][]c18Seg) int {
+	total := 0
+	for _, g := range e {
+		n := 1
+		for _, s := range g {
+			if s.Lit != nil {
+				continue
+			}
+			k := 0
+			for _, el := range s.Block {
+				if el.S != nil {
+					k++
+					continue
+				}
+				lo, _ := strconv.Atoi(*el.Lo)
+				hi, _ := strconv.Atoi(*el.Hi)
+				d := hi - lo
+				if d < 0 {
+					d = -d
+				}
+				k += d + 1
+			}
+			n *= k
+			if n > 1000000 {
+				n = 1000000
+			}
+		}
+		total += n
+	}
+	return total
+}
+
 func c18Range(lo, hi string) c18Seg {
 	return c18Seg{Block: []c18Elem{{Lo: c18S(lo), Hi: c18S(hi)}}}
 }
@@ -324,7 +358,11 @@ func (c18) Gen(seed int64, tier string, emit func(any)) {
 			}
 			e = append(e, segs)
 		}
-		emit(c18Case{Ja: r.Intn(3) == 0, Expr: e})
+		ja := r.Intn(3) == 0
+		if c18Count(e) > 400 {
+			continue // keep the expansion small enough for the kernel evaluation
+		}
+		emit(c18Case{Ja: ja, Expr: e})
 	}
 	// 3. exhaustive small odometers: block sizes 1..3 for 1, 2 and 3 blocks
 	for a := 1; a <= 3; a++ {
